@@ -1,15 +1,16 @@
+import math
 from typing import Optional, Tuple
+
+import numpy as np
 
 from ..expressions import (
     AddExpression,
     BinaryExpression,
     ConstantExpression,
-    DivideExpression,
     EqualExpression,
     MathExpression,
     MultiplyExpression,
     NegateExpression,
-    PowerExpression,
     VariableExpression,
 )
 from ..rule import BaseRule, ExpressionChangeRule
@@ -60,20 +61,20 @@ class ConstantsSimplifyRule(BaseRule):
         if isinstance(node, EqualExpression):
             return None
 
-        # A division by zero (4 / 0, 0^-1) has no value to fold to
+        # An operation without a finite value (4 / 0, 0^-1, 10^400.5) has nothing to
+        # fold to
         folded = node.get_child() if isinstance(node, NegateExpression) else node
         if (
-            isinstance(folded, (DivideExpression, PowerExpression))
+            isinstance(folded, BinaryExpression)
             and isinstance(folded.left, ConstantExpression)
             and isinstance(folded.right, ConstantExpression)
             and folded.left.value is not None
             and folded.right.value is not None
         ):
-            if isinstance(folded, DivideExpression) and folded.right.value == 0:
+            with np.errstate(all="ignore"):
+                value = folded.operate(folded.left.value, folded.right.value)
+            if isinstance(value, (float, np.floating)) and not math.isfinite(value):
                 return None
-            if isinstance(folded, PowerExpression):
-                if folded.left.value == 0 and folded.right.value < 0:
-                    return None
 
         # Check for a negation wrapping a simple binary op with constants
         # -(3 + 2)
